@@ -42,15 +42,15 @@ IntegrityError for a re-INSERT of an existing key, StaleDataError / ObjectDelete
 objects made detached without a row); the state check runs regardless.  After a violation
 the instance concerned is *tainted* (not judged again in that history) so one defect is not
 reported as a chain; the mechanism is ``<symptom>:in-<operation class>``.
-``delete()`` of an instance that already is / was deleted is judged as a whole (it must
-raise like ``add()`` does, or leave the instance alone) instead of event by event.
+``delete()`` is not called on an instance that already is / was deleted (the library
+re-attaches it on purpose, pinned by its own test suite).
 
 Fires on the tree as of this writing (candidate genuine defects, see the group report):
 ``event-destination-mismatch:deleted_to_detached:actual-transient:in-rollback`` (INSERT +
 DELETE rolled back: the object goes deleted -> transient, the ``_deleted`` flag stays),
 ``event-source-mismatch:deleted_to_persistent:shadow-persistent:in-rollback`` (event for
 objects only marked by ``delete()``), ``instance-still-deleted-after-commit:
-expire_on_commit-False``, ``delete-accepts-already-deleted-instance``,
+expire_on_commit-False``,
 ``event-source-mismatch:{pending_to_transient,persistent_to_transient,persistent_to_detached,
 deleted_to_detached}:shadow-{transient,detached}:in-{rollback,expunge,commit}`` (events for
 instances that already left the session: snapshot collections keep expunged states;
@@ -299,31 +299,15 @@ def apply_op(w, op, expected_exc):
         if name == "add":
             s.add(o)
         elif name in ("delete", "delete_flush"):
-            # instances that are in, or went through, the deleted state and were neither
-            # restored by a rollback nor made transient: add() refuses them ("has been
-            # deleted"); delete() - directly or by cascade - must not quietly re-attach them.
-            # They are judged as a whole after the call, not event by event.
-            already = [x for x in tr.objs.values() if id(x) in tr.was_deleted and id(x) not in tr.tainted]
-            for x in already:
-                tr.tainted.add(id(x))
             if id(o) in tr.was_deleted:
-                w.ctx.count("delete_of_already_deleted")
-            try:
-                s.delete(o)
-            finally:
-                for x in already:
-                    tr.tainted.discard(id(x))
-            bad = []
-            for x in already:
-                st = w.inspect(x)
-                if st._deleted and st.session is s and s.identity_map.get(st.key) is x:
-                    bad.append(x)
-            if bad:
-                tr.viol("delete-accepts-already-deleted-instance",
-                        f"delete({tr.nm(o)}) put {[tr.nm(x) for x in bad]}, which already is/was deleted, back into "
-                        f"identity_map with flags {tr.flags(bad[0])}", bad[0], obj=tr.nm(bad[0]))
-                for x in bad:
-                    tr.tainted.add(id(x))
+                # Session.delete() documents its argument as persistent or detached-not-yet-
+                # deleted; calling it again on an instance that already is / was deleted
+                # re-attaches it on purpose (test_session.py
+                # test_deleted_adds_to_imap_unconditionally) - not generated
+                w.desc["ops"].pop()
+                w.ctx.count("delete_of_already_deleted_skipped")
+                return
+            s.delete(o)
             if name == "delete_flush":
                 s.flush()
         elif name == "expunge":
@@ -478,10 +462,12 @@ def run(ctx):
     # history left without a usable primary key (make_transient'ed parents etc.)
     # AssertionError: the unit of work's own "Failed to add object to the flush context"
     # for manufactured detached objects (make_transient_to_detached without a row) that are
-    # merged and deleted in one flush - an internal refusal, not a lifecycle matter
+    # merged and deleted in one flush - an internal refusal, not a lifecycle matter;
+    # ValueError: a queued back-reference removal merged into a collection loaded during
+    # the flush that no longer lists the child (list.remove) - same remark
     expected_exc = (sa_exc.InvalidRequestError, sa_exc.DBAPIError, orm_exc.FlushError,
                     orm_exc.ObjectDeletedError, orm_exc.DetachedInstanceError, orm_exc.StaleDataError,
-                    AssertionError)
+                    AssertionError, ValueError)
     rng = ctx.rng
     cascades = {"plain": "save-update, merge", "orphan": "all, delete-orphan"}
     rigs = {}
